@@ -44,3 +44,465 @@ pub fn harvest(len: usize, seed: u64) -> Vec<(Spec, Vec<u8>)> {
     }
     out
 }
+
+// ------------------------------------------------------------------------------------------------
+// The check
+
+use crate::harness::*;
+use hmac::{Hmac, KeyInit, Mac};
+use prio::field::FieldPrio2;
+use prio::vdaf::xof::SeedStreamAes128;
+use prio::vdaf::{Aggregator, Share};
+use crate::p3::aggregate_unshard_wire;
+use proptest::prelude::*;
+use rand_core::Rng;
+use serde::{Deserialize, Serialize};
+use sha2::Sha256;
+
+pub struct C19;
+
+const P: u64 = 4293918721;
+
+#[derive(Clone, Debug, Serialize, Deserialize)]
+pub enum Alter {
+    None,
+    /// leader share element `idx` += delta (non-zero)
+    LeaderElem { idx: u16, delta: u32 },
+    /// flip a bit of the helper seed
+    HelperSeed { bit: u8 },
+    /// verifier share of aggregator `agg`, element `elem` (f_r, g_r, h_r) += delta
+    VerifierShare { agg: u8, elem: u8, delta: u32 },
+}
+
+#[derive(Clone, Debug, Serialize, Deserialize)]
+pub enum Case {
+    /// a batch of reports: 0/1 vectors or vectors with one non-binary entry, optionally altered
+    Batch { len: usize, key_seed: u64, reports: Vec<(u64, Option<(u16, u32)>, Alter)> },
+    /// every element of the leader share altered in turn
+    Sweep { len: usize, seed: u64 },
+    /// search a nonce whose first query-point candidate is an interpolation node, then check that
+    /// the aggregators skip it
+    RootNonce { len: usize, key_seed: u64, start: u64, budget: u64 },
+}
+
+fn pow_mod(mut b: u64, mut e: u64) -> u64 {
+    let mut r = 1u64;
+    b %= P;
+    while e > 0 {
+        if e & 1 == 1 {
+            r = r * b % P;
+        }
+        b = b * b % P;
+        e >>= 1;
+    }
+    r
+}
+
+/// The documented derivation of the query point: HMAC-SHA256(key, nonce) → (AES key, IV) → CTR
+/// stream → successive little-endian 32-bit candidates, discarded when ≥ p or when a 2n-th root of
+/// unity. Returns (candidates looked at, chosen).
+fn model_query_point(key: &[u8; 32], nonce: &[u8; 16], len: usize) -> (Vec<u64>, u64) {
+    let mut mac = Hmac::<Sha256>::new_from_slice(key).unwrap();
+    mac.update(nonce);
+    let tag = mac.finalize().into_bytes();
+    let k: [u8; 16] = tag[..16].try_into().unwrap();
+    let iv: [u8; 16] = tag[16..].try_into().unwrap();
+    let mut stream = SeedStreamAes128::new(&k, &iv);
+    let two_n = 2 * (len + 1).next_power_of_two() as u64;
+    let mut seen = vec![];
+    loop {
+        let mut b = [0u8; 4];
+        stream.fill_bytes(&mut b);
+        let v = u32::from_le_bytes(b) as u64;
+        if v >= P {
+            continue;
+        }
+        seen.push(v);
+        if pow_mod(v, two_n) != 1 {
+            return (seen, v);
+        }
+    }
+}
+
+struct Verified {
+    outs: Option<Vec<Vec<FieldPrio2>>>,
+    why: String,
+}
+
+/// Run verification of one (possibly altered) report; every message through its encoding.
+fn verify(vdaf: &Prio2, len: usize, key: &[u8; 32], nonce: &[u8; 16], shares: &[Share<FieldPrio2, 32>], alter: &Alter, obs: &mut Obs) -> Option<Verified> {
+    let mut bytes: Vec<Vec<u8>> = shares.iter().map(|s| s.get_encoded().unwrap()).collect();
+    match alter {
+        Alter::LeaderElem { idx, delta } => {
+            let n = bytes[0].len() / 4;
+            let i = idx16(*idx, n);
+            let cur = u32::from_le_bytes(bytes[0][4 * i..4 * i + 4].try_into().unwrap()) as u64;
+            let d = (*delta as u64 % (P - 1)) + 1;
+            let nv = ((cur + d) % P) as u32;
+            bytes[0][4 * i..4 * i + 4].copy_from_slice(&nv.to_le_bytes());
+        }
+        Alter::HelperSeed { bit } => {
+            let i = *bit as usize % 256;
+            bytes[1][i / 8] ^= 1 << (i % 8);
+        }
+        _ => {}
+    }
+    let mut states = vec![];
+    let mut vshares = vec![];
+    for j in 0..2 {
+        let a = AggInput::<32> { agg_id: j, verify_key: *key, ctx: vec![], nonce: *nonce, public_share: vec![], input_share: bytes[j].clone() };
+        match init_wire(vdaf, &(), &a) {
+            Ok(o) => {
+                states.push(o.state);
+                vshares.push(o.verifier_share);
+            }
+            Err(f) if f.is_panic() => {
+                obs.fail(format!("prio2-{}-{}", f.stage(), panic_sig(&f.describe())), format!("Prio2 verification panicked: {}", f.describe()));
+                return None;
+            }
+            Err(f) => return Some(Verified { outs: None, why: f.describe() }),
+        }
+    }
+    if let Alter::VerifierShare { agg, elem, delta } = alter {
+        let j = *agg as usize % 2;
+        let e = *elem as usize % 3;
+        let cur = u32::from_le_bytes(vshares[j][4 * e..4 * e + 4].try_into().unwrap()) as u64;
+        let d = (*delta as u64 % (P - 1)) + 1;
+        vshares[j][4 * e..4 * e + 4].copy_from_slice(&(((cur + d) % P) as u32).to_le_bytes());
+    }
+    let msg = match combine_wire(vdaf, b"", &(), &states[1], &vshares) {
+        Ok(m) => m,
+        Err(f) if f.is_panic() => {
+            obs.fail(format!("prio2-{}-{}", f.stage(), panic_sig(&f.describe())), format!("Prio2 verification panicked: {}", f.describe()));
+            return None;
+        }
+        Err(f) => return Some(Verified { outs: None, why: f.describe() }),
+    };
+    let mut outs = vec![];
+    for (j, st) in states.into_iter().enumerate() {
+        match next_wire(vdaf, j, b"", &(), st, &msg) {
+            Ok(NextOut::Finish(b)) => match decode_vec::<FieldPrio2>(&b) {
+                Some(v) => outs.push(v),
+                None => {
+                    obs.fail("prio2-output-share-bytes", "output share is not a vector of canonical elements");
+                    return None;
+                }
+            },
+            Ok(_) => return Some(Verified { outs: None, why: "extra round".into() }),
+            Err(f) if f.is_panic() => {
+                obs.fail(format!("prio2-{}-{}", f.stage(), panic_sig(&f.describe())), format!("Prio2 verification panicked: {}", f.describe()));
+                return None;
+            }
+            Err(f) => return Some(Verified { outs: None, why: f.describe() }),
+        }
+    }
+    let _ = len;
+    Some(Verified { outs: Some(outs), why: String::new() })
+}
+
+fn measurement(len: usize, seed: u64, bad: &Option<(u16, u32)>) -> Vec<u32> {
+    let mut m: Vec<u32> = match seed % 5 {
+        0 => vec![0; len],
+        1 => vec![1; len],
+        _ => expand(seed, 1, len).iter().map(|b| (b & 1) as u32).collect(),
+    };
+    if let Some((pos, val)) = bad {
+        if len > 0 {
+            let i = idx16(*pos, len);
+            m[i] = match val % 5 {
+                0 => 2,
+                1 => 3,
+                2 => (P - 1) as u32,
+                3 => ((P + 1) / 2) as u32,
+                _ => 2 + val % (P as u32 - 3),
+            };
+        }
+    }
+    m
+}
+
+fn len_strategy(max: usize) -> BoxedStrategy<usize> {
+    let mut edges = vec![];
+    let mut k = 2usize;
+    while k <= max {
+        edges.extend([k - 2, k - 1, k]);
+        k *= 2;
+    }
+    edges.retain(|x| *x >= 1 && *x <= max);
+    prop_oneof![3 => 1usize..=max.min(70), 3 => proptest::sample::select(edges), 1 => 1usize..=max].boxed()
+}
+
+impl Check for C19 {
+    type Case = Case;
+    const ID: &'static str = "C19";
+    fn rule(&self) -> String {
+        "proptest-generated: input length (weighted towards 2^k−2, 2^k−1, 2^k, where the proof packing changes shape; ≤ 70 quick, ≤ 4096 thorough), batches of 0/1 vectors, vectors with one non-binary entry (2, 3, p−1, (p+1)/2, random), alterations of a generated element of the leader share, of the helper seed, of a verifier share; key and nonce. Oracle: unaltered 0/1 ⇒ both aggregators accept and the aggregate is the element-wise sum; anything else ⇒ rejected (reported only after 4 independent keys accept); in every run the aggregators' verifier shares equal those of verify_init_with_query_rand at the query point recomputed from the documented derivation (HMAC-SHA256 → AES-CTR → first candidate that is not a 2n-th root of unity), which therefore is never an interpolation node; nonces whose first candidate IS a node are found by search so that the rejection loop is exercised; every element of the leader share is swept for small lengths. Non-trivial = non-binary or altered report, a length within one of a power of two, or a constructed-nonce case; distinct by case hash (sharding randomness comes from the OS and does not affect verdicts)".into()
+    }
+    fn assumptions(&self) -> Vec<String> {
+        vec!["Prio2::shard draws its randomness from the OS; verdicts depend on it only through the soundness error (≤ 2n/2^32 per attempt, 4 attempts)".into()]
+    }
+    fn strategy(&self, tier: Tier) -> BoxedStrategy<Case> {
+        let maxlen = tier.pick(70usize, 4096);
+        let alter = prop_oneof![
+            4 => Just(Alter::None),
+            3 => (any::<u16>(), any::<u32>()).prop_map(|(idx, delta)| Alter::LeaderElem { idx, delta }),
+            1 => any::<u8>().prop_map(|bit| Alter::HelperSeed { bit }),
+            2 => (any::<u8>(), any::<u8>(), any::<u32>()).prop_map(|(agg, elem, delta)| Alter::VerifierShare { agg, elem, delta }),
+        ];
+        let report = (any::<u64>(), prop::option::weighted(0.3, (any::<u16>(), any::<u32>())), alter);
+        let batch = (len_strategy(maxlen), any::<u64>(), prop::collection::vec(report, 1..=5)).prop_map(|(len, key_seed, reports)| Case::Batch { len, key_seed, reports });
+        let sweep = (1usize..=12, any::<u64>()).prop_map(|(len, seed)| Case::Sweep { len, seed });
+        prop_oneof![8 => batch, 1 => sweep].boxed()
+    }
+    fn num_cases(&self, tier: Tier) -> u64 {
+        tier.pick(150_000, 3_000_000)
+    }
+    fn enumerate(&self, tier: Tier, shard: usize, nshards: usize, f: &mut dyn FnMut(Case) -> bool) {
+        // constructed nonces: the larger the domain, the cheaper the search (2n / 2^32 per nonce)
+        let n = tier.pick(4usize, 32);
+        for i in 0..n {
+            if i % nshards == shard {
+                let len = [2000usize, 1023, 1500, 4000][i % 4];
+                if !f(Case::RootNonce { len, key_seed: 1000 + i as u64, start: (i as u64) << 40, budget: 40_000_000 }) {
+                    return;
+                }
+            }
+        }
+    }
+    fn enumerated_space(&self, tier: Tier) -> Option<String> {
+        Some(format!("{} searches for a nonce whose first query-point candidate is an interpolation node (not a complete enumeration of a space; counted as generated evidence)", tier.pick(4, 32)))
+    }
+    fn case_timeout_s(&self, tier: Tier) -> u64 {
+        tier.pick(600, 3600)
+    }
+    fn run(&self, case: &Case) -> Outcome {
+        let mut obs = Obs::new();
+        match case {
+            Case::Batch { len, key_seed, reports } => {
+                let len = *len;
+                let vdaf = match Prio2::new(len) {
+                    Ok(v) => v,
+                    Err(e) => {
+                        obs.fail("prio2-ctor", format!("Prio2::new({len}) refused: {e}"));
+                        return obs.finish();
+                    }
+                };
+                if (len + 1).is_power_of_two() || (len + 2).is_power_of_two() || len.is_power_of_two() {
+                    obs.label("length-near-power-of-two");
+                    obs.nt();
+                }
+                let key: [u8; 32] = crate::gen::arr_from(*key_seed | 2);
+                let mut sums = vec![0u64; len];
+                let mut agg_in: Vec<Vec<Vec<u8>>> = vec![vec![], vec![]];
+                let mut accepted = 0usize;
+                for (ri, (mseed, bad, alter)) in reports.iter().enumerate() {
+                    let meas = measurement(len, *mseed, bad);
+                    let nonce: [u8; 16] = crate::gen::arr_from(mseed ^ 0x5151 | 2);
+                    let shares = match guard(|| vdaf.shard(b"", &meas, &nonce)) {
+                        Ok(Ok(((), s))) => s,
+                        Ok(Err(e)) => {
+                            obs.fail("prio2-shard-err", format!("Prio2({len}).shard refused a vector of the right length: {e}"));
+                            return obs.finish();
+                        }
+                        Err(p) => {
+                            obs.fail(format!("prio2-shard-{}", panic_sig(&p)), format!("Prio2({len}).shard panicked: {p}"));
+                            return obs.finish();
+                        }
+                    };
+                    // query point: the trait path equals the explicit-query-point path at the model's point
+                    let (seen, r) = model_query_point(&key, &nonce, len);
+                    if seen.len() > 1 {
+                        obs.label("query-point-candidate-skipped");
+                    }
+                    for (j, s) in shares.iter().enumerate() {
+                        let a = vdaf.verify_init(&key, b"", j, &(), &nonce, &(), s);
+                        let b = vdaf.verify_init_with_query_rand(FieldPrio2::from_u128(r as u128), s, j == 0);
+                        match (a, b) {
+                            (Ok((_, va)), Ok((_, vb))) => {
+                                if va.get_encoded().ok() != vb.get_encoded().ok() {
+                                    obs.fail("query-point-derivation", format!("verify_init's verifier share differs from verify_init_with_query_rand at the documented query point {r} (candidates {seen:?})"));
+                                    return obs.finish();
+                                }
+                            }
+                            _ => {
+                                obs.fail("verify-init-honest-err", "verify_init failed on an honestly sharded report");
+                                return obs.finish();
+                            }
+                        }
+                    }
+                    let honest = bad.is_none() && matches!(alter, Alter::None);
+                    if !honest {
+                        obs.nt();
+                        obs.label(match (bad.is_some(), alter) {
+                            (true, Alter::None) => "non-binary-vector",
+                            (_, Alter::LeaderElem { .. }) => "altered-leader-element",
+                            (_, Alter::HelperSeed { .. }) => "altered-helper-seed",
+                            (_, Alter::VerifierShare { .. }) => "altered-verifier-share",
+                            _ => "other",
+                        });
+                    }
+                    let v = match verify(&vdaf, len, &key, &nonce, &shares, alter, &mut obs) {
+                        Some(v) => v,
+                        None => return obs.finish(),
+                    };
+                    match (v.outs, honest) {
+                        (Some(outs), true) => {
+                            accepted += 1;
+                            for i in 0..len {
+                                let s = (outs[0][i].to_big() + outs[1][i].to_big()) % num_bigint::BigUint::from(P);
+                                if s != num_bigint::BigUint::from(meas[i]) {
+                                    obs.fail("prio2-output-sum", format!("report {ri}: output shares sum to {s} at position {i}, the measurement is {}", meas[i]));
+                                    return obs.finish();
+                                }
+                                sums[i] += meas[i] as u64;
+                            }
+                            for j in 0..2 {
+                                agg_in[j].push(encode_vec(&outs[j]));
+                            }
+                        }
+                        (None, true) => {
+                            obs.fail("prio2-honest-rejected", format!("report {ri}: an honestly sharded 0/1 vector of length {len} was rejected: {}", v.why));
+                            return obs.finish();
+                        }
+                        (None, false) => obs.label("rejected-as-expected"),
+                        (Some(_), false) => {
+                            // re-test under three fresh keys
+                            let mut all = true;
+                            for k in 1..=3u64 {
+                                obs.label("soundness-retest");
+                                let key2: [u8; 32] = crate::gen::arr_from(key_seed.wrapping_mul(31).wrapping_add(k * 7907) | 2);
+                                match verify(&vdaf, len, &key2, &nonce, &shares, alter, &mut obs) {
+                                    Some(Verified { outs: Some(_), .. }) => {}
+                                    _ => {
+                                        all = false;
+                                        break;
+                                    }
+                                }
+                            }
+                            if all {
+                                obs.fail("prio2-invalid-accepted", format!("report {ri} of length {len} ({}) was accepted under 4 independent verification keys", if bad.is_some() { "a vector with a non-binary entry" } else { "an altered share" }));
+                                return obs.finish();
+                            }
+                            obs.label("soundness-fluke");
+                        }
+                    }
+                }
+                if accepted > 0 {
+                    match aggregate_unshard_wire(&vdaf, &(), &agg_in, accepted) {
+                        Ok(r) => {
+                            let want: Vec<u32> = sums.iter().map(|s| (*s % P) as u32).collect();
+                            if r != want {
+                                obs.fail("prio2-aggregate", format!("aggregate {r:?} differs from the element-wise sum {want:?}"));
+                            }
+                        }
+                        Err(f) => obs.fail("prio2-aggregate-err", format!("aggregation of accepted reports failed: {}", f.describe())),
+                    }
+                }
+            }
+            Case::Sweep { len, seed } => {
+                obs.nt();
+                obs.label("leader-share-sweep");
+                let len = *len;
+                let Ok(vdaf) = Prio2::new(len) else { return obs.finish() };
+                let key: [u8; 32] = crate::gen::arr_from(*seed | 2);
+                let nonce: [u8; 16] = crate::gen::arr_from(seed ^ 0x77 | 2);
+                let meas = measurement(len, *seed, &None);
+                let Ok(((), shares)) = vdaf.shard(b"", &meas, &nonce) else {
+                    obs.fail("prio2-shard-err", "shard failed");
+                    return obs.finish();
+                };
+                let n = crate::codec::prio2_proof_length(len);
+                obs.evals = n as u64;
+                for i in 0..n {
+                    // address element i exactly
+                    let idx = (((i as u64) << 16).div_ceil(n as u64)) as u16;
+                    let alter = Alter::LeaderElem { idx, delta: 1 + (seed.wrapping_add(i as u64) % 1000) as u32 };
+                    let mut accepted_all = true;
+                    for k in 0..4u64 {
+                        let key2: [u8; 32] = if k == 0 { key } else { crate::gen::arr_from(seed.wrapping_mul(131).wrapping_add(k * 104729) | 2) };
+                        match verify(&vdaf, len, &key2, &nonce, &shares, &alter, &mut obs) {
+                            Some(Verified { outs: Some(_), .. }) => {}
+                            Some(_) => {
+                                accepted_all = false;
+                                break;
+                            }
+                            None => return obs.finish(),
+                        }
+                    }
+                    if accepted_all {
+                        let part = if i < len { "data" } else if i < len + 3 { "f(0)/g(0)/h(0)" } else { "packed points of h" };
+                        obs.fail("prio2-altered-element-accepted", format!("length {len}: the leader share with element {i} ({part}) altered was accepted under 4 independent keys"));
+                        return obs.finish();
+                    }
+                }
+            }
+            Case::RootNonce { len, key_seed, start, budget } => {
+                obs.label("constructed-nonce-search");
+                let len = *len;
+                let Ok(vdaf) = Prio2::new(len) else { return obs.finish() };
+                let key: [u8; 32] = crate::gen::arr_from(*key_seed | 2);
+                let two_n = 2 * (len + 1).next_power_of_two() as u64;
+                let mut found = None;
+                for c in 0..*budget {
+                    let mut nonce = [0u8; 16];
+                    nonce[..8].copy_from_slice(&(start + c).to_le_bytes());
+                    // first candidate only (cheap): HMAC → AES block 0 → first 4 bytes
+                    let mut mac = Hmac::<Sha256>::new_from_slice(&key).unwrap();
+                    mac.update(&nonce);
+                    let tag = mac.finalize().into_bytes();
+                    let k: [u8; 16] = tag[..16].try_into().unwrap();
+                    let iv: [u8; 16] = tag[16..].try_into().unwrap();
+                    let mut stream = SeedStreamAes128::new(&k, &iv);
+                    let mut b = [0u8; 4];
+                    stream.fill_bytes(&mut b);
+                    let v = u32::from_le_bytes(b) as u64;
+                    if v < P && pow_mod(v, two_n) == 1 {
+                        found = Some(nonce);
+                        break;
+                    }
+                }
+                let Some(nonce) = found else {
+                    obs.label("constructed-nonce-not-found-within-budget");
+                    return obs.finish();
+                };
+                obs.nt();
+                obs.label("constructed-nonce-found");
+                let (seen, r) = model_query_point(&key, &nonce, len);
+                let meas = measurement(len, *key_seed, &None);
+                let Ok(((), shares)) = vdaf.shard(b"", &meas, &nonce) else {
+                    obs.fail("prio2-shard-err", "shard failed");
+                    return obs.finish();
+                };
+                for (j, s) in shares.iter().enumerate() {
+                    let a = vdaf.verify_init(&key, b"", j, &(), &nonce, &(), s);
+                    let good = vdaf.verify_init_with_query_rand(FieldPrio2::from_u128(r as u128), s, j == 0);
+                    let node = vdaf.verify_init_with_query_rand(FieldPrio2::from_u128(seen[0] as u128), s, j == 0);
+                    match (a, good, node) {
+                        (Ok((_, va)), Ok((_, vg)), Ok((_, vn))) => {
+                            let (va, vg, vn) = (va.get_encoded().unwrap(), vg.get_encoded().unwrap(), vn.get_encoded().unwrap());
+                            if va == vn && va != vg {
+                                obs.fail("query-point-is-interpolation-node", format!("for this nonce the first candidate {} is a {two_n}-th root of unity and the aggregators evaluate the proof there", seen[0]));
+                                return obs.finish();
+                            }
+                            if va != vg {
+                                obs.fail("query-point-derivation", format!("verify_init's verifier share differs from the one at the documented query point {r} (candidates {seen:?})"));
+                                return obs.finish();
+                            }
+                        }
+                        _ => {
+                            obs.fail("verify-init-honest-err", "verify_init failed on an honestly sharded report");
+                            return obs.finish();
+                        }
+                    }
+                }
+                // and the report still verifies end to end
+                match verify(&vdaf, len, &key, &nonce, &shares, &Alter::None, &mut obs) {
+                    Some(Verified { outs: Some(_), .. }) => {}
+                    Some(v) => obs.fail("prio2-honest-rejected", format!("an honest report with a constructed nonce was rejected: {}", v.why)),
+                    None => {}
+                }
+            }
+        }
+        obs.finish()
+    }
+}
